@@ -5,6 +5,7 @@ is recorded; `alias` / `alias n` output is captured through the builtin's own re
 to a fresh shell (round trip); oracle: an alias-table model."""
 import json
 import os
+import re
 import shlex
 
 import common
@@ -76,15 +77,19 @@ def gen_history(rng):
             ops.append({"op": "unalias", "name": name})
             table.pop(name, None)
         elif r < 0.55:
-            ops.append({"op": "list", "k": k})
+            # the listing goes to a file, into a pipe, or into a command substitution: every definition each time
+            ops.append({"op": "list", "k": k, "via": rng.choice(["file", "file", "pipe", "capture"])})
             k += 1
         elif r < 0.62:
             ops.append({"op": "show", "name": rng.choice(list(table) + [rng.choice(NAMES)]), "k": k})
             k += 1
         else:
             name = rng.choice(list(table))
-            pos = rng.choice(["start", "after-pipe", "after-semicolon", "after-and", "non-first-word", "start", "every-stage"])
+            pos = rng.choice(["start", "after-pipe", "after-semicolon", "after-and", "non-first-word", "start", "every-stage", "for-list"])
             op = {"op": "use", "name": name, "pos": pos, "k": k, "args": [rng.choice(["u1", "-v", "w w"] + ([rng.choice(sorted(table))] if table else [])) for _ in range(rng.randint(0, 2))]}
+            if pos == "for-list":
+                # the words of a `for` list are data: the first of them is not a command word either
+                op["args"] = [a for a in op["args"] if " " not in a]
             if pos == "every-stage":
                 # a pipeline of 2..4 stages whose heads are all aliases (values without a pipe), each with its own words
                 cands = [n for n in table if "|" not in table[n][0]]
@@ -114,8 +119,14 @@ def judge(case, roundtrip=True):
             lines.append("unalias %s 2> /dev/null" % op["name"])
             table.pop(op["name"], None)
         elif o == "list":
-            lines.append("alias > list%d.txt" % op["k"])
-            expect.append(("list", op["k"], dict(table)))
+            via = op.get("via", "file")
+            if via == "pipe":
+                lines.append("alias | vp_io L%d > /dev/null 2> /dev/null" % op["k"])
+            elif via == "capture":
+                lines.append('vp_argv L%d "$(alias)"' % op["k"])
+            else:
+                lines.append("alias > list%d.txt" % op["k"])
+            expect.append(("list", op["k"], dict(table), via))
         elif o == "show":
             lines.append("alias %s > show%d.txt 2> /dev/null" % (op["name"], op["k"]))
             expect.append(("show", op["k"], op["name"], table.get(op["name"])))
@@ -139,6 +150,12 @@ def judge(case, roundtrip=True):
                 lines.append(mark)
                 lines.append("vp_a H%d && %s%s" % (k, name, argtxt))
                 exp = [("vp_a", ["H%d" % k])] + value_argvs(table[name], args)
+            elif op["pos"] == "for-list":
+                lines.append(mark)
+                lines.append("for w in %s%s" % (name, argtxt))
+                lines.append("    vp_argv F%d $w" % k)
+                lines.append("done")
+                exp = [("vp_argv", ["F%d" % k, w]) for w in [name] + args]
             elif op["pos"] == "every-stage":
                 lines.append(mark)
                 lines.append(" | ".join(n + "".join(" " + a for a in a_) for n, a_ in op["stages"]))
@@ -164,9 +181,16 @@ def judge(case, roundtrip=True):
         return ("violated", "C17:shell-crash", res)
     # group records by use marker
     groups = {}
+    listed = {}
     cur = None
     for x in sb.records():
         if x["kind"] != "start":
+            continue
+        if x["name"] in ("vp_io", "vp_argv") and x["argv"][1:2] and re.match(r"L\d+$", x["argv"][1]):
+            if x["name"] == "vp_io":
+                listed[int(x["argv"][1][1:])] = x.get("stdin", b"").decode("utf-8", "replace")
+            else:
+                listed[int(x["argv"][1][1:])] = "\n".join(x["argv"][2:]) + "\n"
             continue
         if x["name"] == "vp_status" and x["argv"][2:3] and x["argv"][2].startswith("U"):
             cur = int(x["argv"][2][1:])
@@ -184,14 +208,17 @@ def judge(case, roundtrip=True):
                 cls = next((o["cls"] for o in reversed(ops[:ops.index(op)]) if o["op"] == "define" and o["name"] == op["name"]), "?")
                 return ("violated", "C17:use:pos=%s:value=%s:wrong-command-or-argv" % (op["pos"], cls), res)
         elif e[0] == "list":
-            _, k, tbl = e
-            p = os.path.join(sb.work, "list%d.txt" % k)
-            content = open(p).read() if os.path.exists(p) else ""
+            _, k, tbl, via = e
+            if via == "file":
+                p = os.path.join(sb.work, "list%d.txt" % k)
+                content = open(p).read() if os.path.exists(p) else ""
+                final_table = (tbl, content)
+            else:
+                content = listed.get(k, "")
             got = parse_listing(content)
-            final_table = (tbl, content)
             if got != tbl:
-                res["listing"], res["expected_table"] = content, tbl
-                return ("violated", "C17:list:listing-differs-from-table", res)
+                res["listing"], res["expected_table"], res["via"] = content, tbl, via
+                return ("violated", "C17:list:listing-differs-from-table" + ("" if via == "file" else ":into-" + via), res)
         elif e[0] == "show":
             _, k, name, val = e
             p = os.path.join(sb.work, "show%d.txt" % k)
@@ -247,7 +274,8 @@ def run(tier, seed):
     rep.rule = ("random histories (<=20 ops) of define / redefine / unalias / list / `alias n` / use over names from "
                 "[A-Za-z0-9_.-]+ (two of them also names of observer programs) and values with options, blanks quoted "
                 "with the other quote kind, a pipe, another alias name, or their own name; uses at line start, after |, "
-                "after ;, after &&, and as a non-first word; the final listing is fed to a fresh shell.  "
+                "after ;, after &&, as a non-first word and as the first word of a `for` list; listings go to a file, a pipe or a "
+                "command substitution; the final listing is fed to a fresh shell.  "
                 "Non-trivial = at least one use or listing; distinct by history.")
     rep.assumptions = ["alias-table model in lib/c17.py; expected argv = shell-split value + the remaining words"]
     rng = common.rng_for(seed, "C17")
